@@ -132,4 +132,53 @@ def runCycles : CState → List (Bool × Env) → List CycleOut
     let (s', out) := cycle s env
     out :: runCycles s' rest
 
+
+/-! ### The module's main loop (kafka_cluster.go:137) and the groups reaper (kafka_cluster.go:304) -/
+
+/-- kafka_cluster.go:304 `reapNonExistingGroups`.  `kafkaGroups` = `client.ListConsumerGroups()`
+    (`none` = error), `storageGroups` = storage's answer to `StorageFetchConsumers` (`none` = a nil
+    reply: unknown cluster).  Result: whether storage was asked at all, and the groups a
+    `StorageSetDeleteGroup` request is sent for, in the order of storage's listing. -/
+def reap (name : String) (kafkaGroups storageGroups : Option (List String)) : Bool × List String :=
+  match kafkaGroups with
+  | none => (false, [])
+  | some kg =>
+    match storageGroups with
+    | none => (true, [])
+    | some sg => (true, sg.filter fun g => g != "burrow-" ++ name && !kg.contains g)
+
+/-- what the main loop's `select` can receive (the quit channel ends the run and is not an event) -/
+inductive Tick where
+  | offset (env : Env)
+  | metadata
+  | reaper (kafkaGroups storageGroups : Option (List String))
+
+inductive LoopOut where
+  | cycled (o : CycleOut)
+  | flagged
+  | reaped (asked : Bool) (deletes : List String)
+
+/-- one iteration of `mainLoop` -/
+def loopStep (name : String) (s : CState) : Tick → CState × LoopOut
+  | .offset env => let (s', o) := cycle s env; (s', .cycled o)
+  | .metadata => ({ s with fetchMetadata := true }, .flagged)
+  | .reaper kg sg => let (a, d) := reap name kg sg; (s, .reaped a d)
+
+def runLoop (name : String) : CState → List Tick → List LoopOut
+  | _, [] => []
+  | s, t :: ts => let (s', o) := loopStep name s t; o :: runLoop name s' ts
+
+/-- the refresh cycles a tick sequence amounts to: each offset tick, with "a metadata tick arrived
+    since the previous offset tick" as its flag -/
+def cyclesOf : Bool → List Tick → List (Bool × Env)
+  | _, [] => []
+  | flag, .offset env :: ts => (flag, env) :: cyclesOf false ts
+  | _, .metadata :: ts => cyclesOf true ts
+  | flag, .reaper _ _ :: ts => cyclesOf flag ts
+
+def cycleOuts : List LoopOut → List CycleOut
+  | [] => []
+  | .cycled o :: rest => o :: cycleOuts rest
+  | _ :: rest => cycleOuts rest
+
 end Burrow.Cluster
